@@ -202,6 +202,9 @@ func (l *Lifter) brBlock(stmts []ast.Stmt, cur *rcur, counts map[string]*countVa
 			}
 		}
 		s := stmts[i]
+		if top && l.prefixReject(s, l.brPrefixVar) {
+			continue
+		}
 		if cur.pendingRec != "" {
 			if _, isAcc := l.accStmt(s, "at"); !isAcc {
 				if _, isTmp := s.(*ast.BlockStmt); !isTmp {
@@ -540,6 +543,7 @@ func (l *Lifter) brAssign(x *ast.AssignStmt, rest []ast.Stmt, cur *rcur, counts 
 		if id, ok := x.Lhs[0].(*ast.Ident); ok && !strings.HasPrefix(id.Name, "ln") {
 			if name, off, conv, _, ok := l.readBytesCall(x.Rhs[0]); ok && name == "ReadUint32Bytes" && (conv == "int" || conv == "") && cur.at.IsZero() && cur.base.IsZero() {
 				l.needRead(cur, off, Const(4), "length-prefix read", "prefix", pos)
+				l.brPrefixVar = id.Name
 				return []Item{{Kind: KPrefix, Tag: -1, Pos: pos}}, 0, true
 			}
 		}
@@ -1122,4 +1126,55 @@ func keyShadows(x ast.Expr, key *ast.Ident) bool {
 		return true
 	})
 	return shadows
+}
+
+
+// prefixReject matches `if <prefix> REL <constant> { return <error> }`: the
+// decoder refuses a record for the value of its length prefix alone. The
+// format lets a newer writer add fields, so a body longer (or otherwise
+// different in length) than this reader's schema can produce is not an error;
+// the one accepted form is the stream decoder's `== 0` shortcut, handled by
+// its own rule. Recorded as a failure of rule "prefixreject".
+func (l *Lifter) prefixReject(s ast.Stmt, prefix string) bool {
+	if prefix == "" {
+		return false
+	}
+	ifs, ok := s.(*ast.IfStmt)
+	if !ok || ifs.Init != nil || ifs.Else != nil || len(ifs.Body.List) != 1 {
+		return false
+	}
+	ret, ok := ifs.Body.List[0].(*ast.ReturnStmt)
+	if !ok || len(ret.Results) != 1 {
+		return false
+	}
+	if id, isId := unparen(ret.Results[0]).(*ast.Ident); isId && id.Name == "nil" {
+		return false
+	}
+	b, ok := unparen(ifs.Cond).(*ast.BinaryExpr)
+	if !ok {
+		return false
+	}
+	x, y := unparen(b.X), unparen(b.Y)
+	isPrefix := func(e ast.Expr) bool {
+		if c, isC := e.(*ast.CallExpr); isC && len(c.Args) == 1 {
+			if tv, okT := l.Info.Types[c.Fun]; okT && tv.IsType() {
+				e = unparen(c.Args[0])
+			}
+		}
+		return l.isIdent(e, prefix)
+	}
+	var k ast.Expr
+	switch {
+	case isPrefix(x):
+		k = y
+	case isPrefix(y):
+		k = x
+	default:
+		return false
+	}
+	if _, isConst := intLit(k); !isConst {
+		return false
+	}
+	l.fail("prefixreject", "", s.Pos(), "the decoder returns %s when the length prefix is %s %s: a body of another length, as a newer schema version writes it, is refused instead of decoded up to the first unknown index", Canon(ret.Results[0]), b.Op, Canon(k))
+	return true
 }
